@@ -184,6 +184,24 @@ func GenC01(r *hx.Rng, tier string, w io.Writer) {
 			}
 		}
 	}
+	// the chain clauses of C01 must also hold for what a restarted node treats as committed: a crash after every
+	// prefix of the writes of one step (non-empty, empty, failing execution), restart, two well-formed answers
+	// (the full crash matrix - nesting, prior lengths, clean stops, cache files - is stream C04)
+	for _, ih := range []uint64{1, 7} {
+		for yi, y := range []sym{{"batch", 2, 1, "ok"}, {"batch", 0, 1, "ok"}, {"batch", 1, 1, "fail"}} {
+			for keep := 0; keep <= 5; keep++ {
+				if tier != "thorough" && ih == 7 && yi > 0 {
+					continue
+				}
+				s.reset(ih, 0)
+				s.step(sym{"batch", 1, 1, "ok"}, false)
+				s.step(sym{"batch", 2, 1, "ok"}, false)
+				s.step(y, false)
+				fmt.Fprintf(w, "crash keep=%d\n", keep)
+				s.probes()
+			}
+		}
+	}
 	n := 80
 	if tier == "thorough" {
 		n = 1500
